@@ -337,8 +337,12 @@ def rule_w1(repo, res, which=("quoted", "symbol", "flags")):
                 anc = call
                 while anc is not None and anc is not fn:
                     par = getattr(anc, "_parent", None)
-                    if isinstance(par, ast.If) and "startswith(self.grammar.quotes)" in norm(par.test) and anc in par.orelse:
-                        sanitised = True
+                    if isinstance(par, ast.If) and anc in par.orelse:
+                        # the exempt branch must test for *every* quote character: startswith(<the whole quotes tuple>)
+                        for cc in ast.walk(par.test):
+                            if isinstance(cc, ast.Call) and isinstance(cc.func, ast.Attribute) and cc.func.attr == "startswith" \
+                                    and cc.args and norm(cc.args[0]) in ("self.grammar.quotes", "tuple(self.grammar.quotes)"):
+                                sanitised = True
                     anc = par
                 tainted_calls.append((call, sanitised))
         folds = decoder_folds_whitespace(repo, dcls)
@@ -349,7 +353,7 @@ def rule_w1(repo, res, which=("quoted", "symbol", "flags")):
                 res.oblige("W1", f"{enc}.encode_assignment ({c}): quoted text ({'/'.join(sorted(kinds))}) reaching "
                                  f"textwrap is harmless because {dcls}.decode_quoted_string folds white space", ok=ok)
                 if not ok:
-                    res.add(Finding("W1", f"{c}.encode_assignment", f"{enc}: quoted text reaches textwrap",
+                    res.add(Finding("W1", f"{c}.encode_assignment", f"{enc}: quoted text ({'/'.join(sorted(kinds))}) reaches textwrap",
                                     f"for {enc}, encode_assignment passes the encoded value to format()/textwrap.wrap "
                                     f"({'the branch for values that start with a quote is exempt, but ' if sanitised else ''}"
                                     "a set or sequence of quoted strings is not): a line break and indentation can be "
